@@ -8,6 +8,9 @@
 //   reset | dump | insert <spec> | exchange n <spec> | volume n | simplify n | simplifyup s |
 //   simplifyall s | replace key T|F | demorgan | postfix n | postfixm n | flag n | infix n |
 //   eval n <hexbits> | evalpost n <hexbits> | tt n k | ttpost n k | logic <tok...> ; <hexbits>
+//   infixlogic <tok...> ; <hexbits>   (tok also `(` `)`; explicit infix grammar only)
+//   infixof n | ttinfix n k           (infix encoding of a node by the harness' own encoder --
+//                                      there is no C++ builder -- evaluated by the REAL InfixEvaluator)
 // Tree-changing ops answer "<result> # <dump>".
 #include <algorithm>
 #include <exception>
@@ -25,6 +28,7 @@
 #include "orange/orangeinp/detail/SenseEvaluator.hh"
 #include "orange/surf/PlaneAligned.hh"
 #include "orange/surf/VariantSurface.hh"
+#include "orange/univ/detail/InfixEvaluator.hh"
 #include "orange/univ/detail/LogicEvaluator.hh"
 
 // The real `calc_max_depth` lives in an anonymous namespace of UnitInserter.cc: compile that
@@ -204,6 +208,143 @@ std::string hex_of_bits(std::vector<bool> const& bs)
         out += "0123456789abcdef"[d];
     }
     return out;
+}
+
+
+// ---- explicit infix notation (InfixEvaluator.hh): grammar check and tree encoder -------------
+// E ::= A | A (lor A)+ | A (land A)+ ; A ::= face | lnot face | ltrue | lopen E lclose
+// Malformed input is undefined behaviour in the release-build evaluator, so it is rejected here
+// (mirrors `infixWellFormed` of lean/CelerVerif/Model/CsgInfix.lean).
+bool wf_chain(std::vector<logic_int> const& t, std::size_t& pos);
+
+bool wf_atom(std::vector<logic_int> const& t, std::size_t& pos)
+{
+    if (pos >= t.size())
+        return false;
+    logic_int tok = t[pos];
+    if (!logic::is_operator_token(tok))
+    {
+        ++pos;
+        return tok < max_surface;
+    }
+    if (tok == logic::ltrue)
+    {
+        ++pos;
+        return true;
+    }
+    if (tok == logic::lnot)
+    {
+        if (pos + 1 >= t.size() || logic::is_operator_token(t[pos + 1])
+            || t[pos + 1] >= max_surface)
+            return false;
+        pos += 2;
+        return true;
+    }
+    if (tok == logic::lopen)
+    {
+        ++pos;
+        if (!wf_chain(t, pos) || pos >= t.size() || t[pos] != logic::lclose)
+            return false;
+        ++pos;
+        return true;
+    }
+    return false;
+}
+
+bool wf_chain(std::vector<logic_int> const& t, std::size_t& pos)
+{
+    logic_int op = 0;
+    while (true)
+    {
+        if (!wf_atom(t, pos))
+            return false;
+        if (pos >= t.size())
+            return true;
+        logic_int o = t[pos];
+        if ((o == logic::lor || o == logic::land) && (op == 0 || op == o))
+        {
+            op = o;
+            ++pos;
+            continue;
+        }
+        return true;
+    }
+}
+
+bool infix_well_formed(std::vector<logic_int> const& t)
+{
+    std::size_t pos = 0;
+    return wf_chain(t, pos) && pos == t.size();
+}
+
+// REAL InfixEvaluator with eval_sense(face) = bit `face` of bits
+bool eval_infix(std::vector<logic_int> const& lgc, std::uint64_t bits)
+{
+    celeritas::detail::InfixEvaluator eval(
+        LdgSpan<logic_int const>{lgc.data(), lgc.size()});
+    return eval([bits](FaceId f) {
+        return ((bits >> f.unchecked_get()) & 1u) != 0;
+    });
+}
+
+// Harness-side encoder of a node into explicit infix notation (mirrors `infixOf`):
+// nullopt for False, empty/singleton joins, negation of anything but a surface, cycles.
+std::optional<logic_int> surface_of(CsgTree const& t, NodeId n, std::size_t fuel)
+{
+    if (fuel == 0)
+        return std::nullopt;
+    Node const& node = t[n];
+    if (auto const* s = std::get_if<Surface>(&node))
+        return s->id.unchecked_get();
+    if (auto const* a = std::get_if<Aliased>(&node))
+        return surface_of(t, a->node, fuel - 1);
+    return std::nullopt;
+}
+
+bool infix_of(CsgTree const& t, NodeId n, std::size_t fuel, std::vector<logic_int>* out)
+{
+    if (fuel == 0)
+        return false;
+    Node const& node = t[n];
+    if (std::holds_alternative<True>(node))
+    {
+        out->push_back(logic::ltrue);
+        return true;
+    }
+    if (auto const* s = std::get_if<Surface>(&node))
+    {
+        out->push_back(s->id.unchecked_get());
+        return true;
+    }
+    if (auto const* a = std::get_if<Aliased>(&node))
+        return infix_of(t, a->node, fuel - 1, out);
+    if (auto const* neg = std::get_if<Negated>(&node))
+    {
+        auto s = surface_of(t, neg->node, fuel - 1);
+        if (!s)
+            return false;
+        out->push_back(logic::lnot);
+        out->push_back(*s);
+        return true;
+    }
+    if (auto const* j = std::get_if<Joined>(&node))
+    {
+        if (j->nodes.size() < 2)
+            return false;
+        out->push_back(logic::lopen);
+        bool first = true;
+        for (NodeId d : j->nodes)
+        {
+            if (!first)
+                out->push_back(j->op);
+            first = false;
+            if (!infix_of(t, d, fuel - 1, out))
+                return false;
+        }
+        out->push_back(logic::lclose);
+        return true;
+    }
+    return false;
 }
 
 // documented precondition of DeMorganSimplifier: no alias nodes, no double negation
@@ -402,6 +543,67 @@ int main()
                         tt[m] = eval_logic(r.second, r.first, m);
                 }
                 out = "tt " + hex_of_bits(tt);
+            }
+            else if (w.size() == 2 && w[0] == "infixof" && parse_dec(w[1], &a)
+                     && a < tree.size())
+            {
+                std::vector<logic_int> lgc;
+                if (infix_of(tree, NodeId{static_cast<size_type>(a)}, tree.size() + 1, &lgc))
+                {
+                    out = "infix";
+                    for (auto v : lgc)
+                        out += " " + show_tok(v);
+                }
+                else
+                {
+                    out = "undefined";
+                }
+            }
+            else if (w.size() == 3 && w[0] == "ttinfix" && parse_dec(w[1], &a)
+                     && a < tree.size() && parse_dec(w[2], &b) && b <= 12)
+            {
+                std::vector<logic_int> lgc;
+                if (infix_of(tree, NodeId{static_cast<size_type>(a)}, tree.size() + 1, &lgc)
+                    && infix_well_formed(lgc))
+                {
+                    std::vector<bool> tt(std::size_t(1) << b);
+                    for (std::uint64_t m = 0; m < tt.size(); ++m)
+                        tt[m] = eval_infix(lgc, m);
+                    out = "tt " + hex_of_bits(tt);
+                }
+                else
+                {
+                    out = "undefined";
+                }
+            }
+            else if (w.size() >= 4 && w[0] == "infixlogic" && w[w.size() - 2] == ";"
+                     && vh::parse_hex(w.back(), &bits))
+            {
+                std::vector<logic_int> lgc;
+                bool ok = true;
+                for (std::size_t i = 1; i + 2 < w.size() && ok; ++i)
+                {
+                    if (w[i] == "*")
+                        lgc.push_back(logic::ltrue);
+                    else if (w[i] == "|")
+                        lgc.push_back(logic::lor);
+                    else if (w[i] == "&")
+                        lgc.push_back(logic::land);
+                    else if (w[i] == "~")
+                        lgc.push_back(logic::lnot);
+                    else if (w[i] == "(")
+                        lgc.push_back(logic::lopen);
+                    else if (w[i] == ")")
+                        lgc.push_back(logic::lclose);
+                    else if (parse_dec(w[i], &a) && a < max_surface)
+                        lgc.push_back(static_cast<logic_int>(a));
+                    else
+                        ok = false;
+                }
+                if (ok && infix_well_formed(lgc))
+                {
+                    out = std::string("val ") + (eval_infix(lgc, bits) ? "T" : "F");
+                }
             }
             else if (w.size() >= 4 && w[0] == "logic" && w[w.size() - 2] == ";"
                      && vh::parse_hex(w.back(), &bits))
